@@ -138,3 +138,54 @@ func badPatternTerm(t string) bool {
 	}
 	return false
 }
+
+// topArgs splits "(op a1 a2 ...)" into op and its arguments.
+func topArgs(s string) (string, []string) {
+	if len(s) < 2 || s[0] != '(' {
+		return "", nil
+	}
+	k := strings.IndexByte(s, ' ')
+	if k < 0 {
+		return "", nil
+	}
+	op := s[1:k]
+	var args []string
+	j := k + 1
+	for j < len(s)-1 {
+		if s[j] == ' ' {
+			j++
+			continue
+		}
+		e := sexprEnd(s, j)
+		args = append(args, s[j:e])
+		j = e
+	}
+	return op, args
+}
+
+// splitGoal breaks a goal of the form (and ...), (=> H (and ...)) or nested combinations into
+// independent sub-goals whose conjunction is the goal.
+func splitGoal(g string) []string {
+	op, args := topArgs(g)
+	switch {
+	case op == "and" && len(args) > 1:
+		var out []string
+		for _, a := range args {
+			out = append(out, splitGoal(a)...)
+		}
+		return out
+	case op == "=>" && len(args) == 2:
+		sub := splitGoal(args[1])
+		if len(sub) <= 1 {
+			return []string{g}
+		}
+		var out []string
+		for _, s := range sub {
+			out = append(out, "(=> "+args[0]+" "+s+")")
+		}
+		return out
+	case op == "!" && len(args) >= 1:
+		return []string{g}
+	}
+	return []string{g}
+}
